@@ -166,7 +166,12 @@ def run(ctx):
         # upper_limit_for_literals table in decompress_block
         db = ctx.hir(BD + "::decompress_block")
         ls = [x for x in hq.find(db["body"], lambda x: x.get("k") == "LetStmt" and x["pat"].get("name") == "upper_limit_for_literals")]
-        got = H.show(ls[0]["init"]) if ls else None
+        got = H.show(hq.peel(ls[0]["init"])) if ls else None
+        if got is not None:
+            # through a helper added since the review (inlined back: the parameter is `&section`, the body a block)
+            got = got.replace("&section.", "section.").strip()
+            while got.startswith("{ ") and got.endswith(" }"):
+                got = got[2:-2].strip()
         want_s = "match section.compressed_size {Option::Some(x) => (x as usize), Option::None{} => match section.ls_type {LiteralsSectionType::RLE{} => 1, LiteralsSectionType::Raw{} => (section.regenerated_size as usize), _ =>"
         ctx.check(got is not None and got.replace("Option::None =>", "Option::None{} =>").startswith(want_s) or
                   (got or "").startswith(want_s.replace("{}", "")), RD, "decompress_block::literals-extent", db["file"],
@@ -430,16 +435,110 @@ def run(ctx):
 
     def jump():
         body = ctx.hir("ruzstd::decoding::literals_section_decoder::decompress_literals")
-        c = hq.Canon(body, inline=False)
-        lets = {x["pat"]["name"]: H.show(hq.peel(x["init"])) for x in hq.find(body["body"], lambda x: x.get("k") == "LetStmt" and x["pat"].get("k") == "Bind" and x.get("init"))}
-        want = {"jump1": "((source[0] as usize) + ((source[1] as usize) << 8))",
-                "jump2": "((jump1 + (source[2] as usize)) + ((source[3] as usize) << 8))",
-                "jump3": "((jump2 + (source[4] as usize)) + ((source[5] as usize) << 8))",
-                "stream1": "&source[range::RangeTo { end: jump1 }]", "stream2": "&source[range::Range { start: jump1, end: jump2 }]",
-                "stream3": "&source[range::Range { start: jump2, end: jump3 }]", "stream4": "&source[range::RangeFrom { start: jump3 }]"}
-        got = {k: lets.get(k) for k in want}
-        ctx.check(got == want, RJ, "decompress_literals::jump-table", body["file"],
-                  "three little-endian u16 stream sizes, cumulative; the fourth stream is the remainder", observed=got, expected=want)
+        # the three stream sizes as affine forms over the six jump-table bytes, computed in the types the source uses:
+        # jump_k = sum of the first k little-endian u16 (any spelling: shifts and adds, `|`, u16::from_le_bytes); a sum
+        # formed in a type it can outgrow (u16: three sizes can reach 196605) is reported
+        from ..normal import INT_BITS, UNSIGNED
+        ix = hq.Index(body)
+        lets_n = {x["pat"]["name"]: x for x in hq.find(body["body"], lambda x: x.get("k") == "LetStmt" and x["pat"].get("k") == "Bind" and x.get("init"))}
+        src = hq.Canon(body, force=True)
+
+        class Bad(Exception):
+            pass
+        bases = set()
+
+        def fits(f, ty, n):
+            if ty in INT_BITS and ty in UNSIGNED:
+                mx = f[1] + sum(255 * c_ for c_ in f[0].values())
+                if mx >= 1 << INT_BITS[ty] or any(c_ < 0 for c_ in f[0].values()) or f[1] < 0:
+                    raise Bad("`%s` can reach %d, more than %s holds" % (H.show(n)[:50], mx, ty))
+            return f
+
+        def aff(n, depth=0):
+            n = hq.peel(n)
+            k = n.get("k")
+            if depth > 12:
+                raise Bad("too deep")
+            if H.lit_val(n) is not None and k == "Lit":
+                return ({}, H.lit_val(n))
+            if k == "Local":
+                d = ix.canon.defs.get(n["lid"])
+                if d and d[0] == "let" and not d[2] and not d[3]:
+                    return aff(d[1], depth + 1)
+                raise Bad("`%s` is not a plain let" % n.get("name"))
+            if k == "Index" and H.lit_val(hq.peel(n["idx"])) is not None and hq.peel(n["e"]).get("k") == "Local" and (n.get("ty") == "u8"):
+                # all table bytes come from one slice (checked below to be the one the streams follow)
+                bases.add(hq.peel(n["e"])["lid"])
+                return ({"b%d" % H.lit_val(hq.peel(n["idx"])): 1}, 0)
+            if k == "Cast":
+                return fits(aff(n["e"], depth + 1), n.get("ty"), n)
+            if k == "Binary" and n["op"] in ("+", "|"):
+                l, r = aff(n["l"], depth + 1), aff(n["r"], depth + 1)
+                if n["op"] == "|":
+                    # disjoint bit ranges only: one side below 2^j, the other a multiple of 2^j
+                    lo, hi = (l, r) if (l[1] + sum(255 * c_ for c_ in l[0].values())) <= (r[1] + sum(255 * c_ for c_ in r[0].values())) else (r, l)
+                    top = (lo[1] + sum(255 * c_ for c_ in lo[0].values())).bit_length()
+                    if hi[1] % (1 << top) or any(c_ % (1 << top) for c_ in hi[0].values()):
+                        raise Bad("`|` of overlapping bit ranges")
+                co = dict(l[0])
+                for k_, v_ in r[0].items():
+                    co[k_] = co.get(k_, 0) + v_
+                return fits((co, l[1] + r[1]), n.get("ty"), n)
+            if k == "Binary" and n["op"] == "<<" and H.lit_val(hq.peel(n["r"])) is not None:
+                l = aff(n["l"], depth + 1)
+                sh_ = H.lit_val(hq.peel(n["r"]))
+                return fits(({k_: v_ << sh_ for k_, v_ in l[0].items()}, l[1] << sh_), n.get("ty"), n)
+            if k == "Call" and (H.callee(n) or "").endswith("::from_le_bytes") and len(n["args"]) == 1 and hq.peel(n["args"][0]).get("k") == "Array":
+                co, cst = {}, 0
+                for i_, el in enumerate(hq.peel(n["args"][0])["elems"]):
+                    f = aff(el, depth + 1)
+                    for k_, v_ in f[0].items():
+                        co[k_] = co.get(k_, 0) + (v_ << (8 * i_))
+                    cst += f[1] << (8 * i_)
+                return fits((co, cst), n.get("ty"), n)
+            raise Bad("`%s` is not an affine form of the jump-table bytes" % H.show(n)[:50])
+        wantj = {"jump1": ({"b0": 1, "b1": 256}, 0), "jump2": ({"b0": 1, "b1": 256, "b2": 1, "b3": 256}, 0),
+                 "jump3": ({"b0": 1, "b1": 256, "b2": 1, "b3": 256, "b4": 1, "b5": 256}, 0)}
+        got, bad = {}, []
+        try:
+            # the four streams are the elements of the array the decode loop walks; their bounds are the jumps
+            fr0 = [x for x in hq.find(body["body"], lambda x: x.get("k") == "For")]
+            arr = hq.peel(fr0[0]["iter"]) if len(fr0) == 1 else {}
+            while arr.get("k") == "AddrOf":
+                arr = hq.peel(arr["e"])
+            elems = [hq.peel(e_) for e_ in (arr.get("elems") or [])] if arr.get("k") == "Array" else []
+            if len(elems) != 4 or any(e_.get("k") != "Local" for e_ in elems):
+                raise Bad("the decode loop does not walk an array of four stream slices")
+            ends = {}
+            stream_slices = []
+            for i_, nm in enumerate(("stream1", "stream2", "stream3", "stream4")):
+                d0 = ix.canon.defs.get(elems[i_]["lid"])
+                sl = hq.peel(d0[1]) if d0 and d0[0] == "let" else {}
+                while sl.get("k") == "AddrOf":
+                    sl = hq.peel(sl["e"])
+                rp = hq.range_parts(sl["idx"]) if sl.get("k") == "Index" else None
+                if rp is None or rp[2]:
+                    raise Bad("`%s` is not a half-open slice of the source" % nm)
+                ends[nm] = (aff(rp[0]) if rp[0] is not None else ({}, 0), aff(rp[1]) if rp[1] is not None else None)
+                stream_slices.append((nm, sl))
+            for nm, sl in stream_slices:
+                sb = hq.peel(sl["e"])
+                d_ = ix.canon.defs.get(sb.get("lid")) if sb.get("k") == "Local" else None
+                after = hq.peel(d_[1]) if d_ and d_[0] == "let" else {}
+                while after.get("k") == "AddrOf":
+                    after = hq.peel(after["e"])
+                rp6 = hq.range_parts(after["idx"]) if after.get("k") == "Index" else None
+                if not (rp6 and rp6[0] is not None and H.lit_val(hq.peel(rp6[0])) == 6 and rp6[1] is None and hq.peel(after["e"]).get("k") == "Local" and
+                        {hq.peel(after["e"])["lid"]} == bases):
+                    raise Bad("`%s` is not cut from the bytes that follow the six-byte table" % nm)
+            okr = ends == {"stream1": (({}, 0), wantj["jump1"]), "stream2": (wantj["jump1"], wantj["jump2"]),
+                           "stream3": (wantj["jump2"], wantj["jump3"]), "stream4": (wantj["jump3"], None)}
+        except Bad as e:
+            bad.append(str(e))
+            okr = False
+        ctx.check(not bad and okr, RJ, "decompress_literals::jump-table", body["file"],
+                  "three little-endian u16 stream sizes, cumulative (in a type that holds their sum); the fourth stream is the remainder",
+                  observed=bad or {k_: [sorted(x_[0].items()) if x_ is not None else None for x_ in v_] for k_, v_ in ends.items()})
         fr = [x for x in hq.find(body["body"], lambda x: x.get("k") == "For")]
         ok = len(fr) == 1 and H.show(fr[0]["iter"]) == "&[stream1, stream2, stream3, stream4]"
         ctx.check(ok, RJ, "decompress_literals::stream-order", body["file"], "streams are decoded in order 1,2,3,4",
